@@ -8,8 +8,8 @@
       ("hi:lo"); decimal rendering is not modelled;
     - an extended community is (code, numeric fields); the decoder's text does not distinguish
       the 2-octet-AS and 4-octet-AS forms of route-target / route-origin, [ext_canon_code]
-      is that identification; MACs are 48-bit integers; traffic-rate (float) and traffic-action
-      are outside the modelled subset (traffic-action decoding raises on Python 3: Err via funnel);
+      is that identification; MACs are 48-bit integers; traffic-rate (float) is outside the
+      modelled subset, traffic-action is decoded but its construction is not modelled;
     - a large community is the list of its integer fields.
 
     REPAIRED behaviour modelled:
@@ -72,17 +72,30 @@ Definition enc_segment (asn4 : bool) (s : N * list N) : bytes :=
   fst s :: len (snd s) :: concat (map (be (asn_size asn4)) (snd s)).
 Definition enc_aspath (asn4 : bool) (segs : list (N * list N)) : bytes :=
   concat (map (enc_segment asn4) segs).
-(** the segment-type test of construct is `assert <exception object>`: always true, no effect *)
+(** per segment, in order: the type must be one of 1..4 (UpdateMessageError MALFORMED_ASPATH),
+    then struct.pack of the AS numbers and of the count raise on a value out of range *)
+Definition seg_type_ok (s : N * list N) : bool := (1 <=? fst s) && (fst s <=? 4).
 Definition segment_ok (asn4 : bool) (s : N * list N) : bool :=
-  (fst s <? 256) && (len (snd s) <? 256) && forallb (fun a => a <? asn_lim asn4) (snd s).
+  (len (snd s) <? 256) && forallb (fun a => a <? asn_lim asn4) (snd s).
+Fixpoint check_segments (asn4 : bool) (segs : list (N * list N)) : res unit :=
+  match segs with
+  | [] => Ok tt
+  | s :: r =>
+    if seg_type_ok s then
+      if segment_ok asn4 s then check_segments asn4 r else PyExc
+    else E_UPD c_ERR_MSG_UPDATE_MALFORMED_ASPATH
+  end.
 Definition construct_aspath (asn4 : bool) (segs : list (N * list N)) : res bytes :=
-  if forallb (segment_ok asn4) segs then
+  match check_segments asn4 segs with
+  | Ok _ =>
     let raw := enc_aspath asn4 segs in
     if 255 <? len raw then
       if 65535 <? len raw then PyExc
       else Ok ((c_ATTR_ASPath_FLAG + 16) :: c_ATTR_ASPath_ID :: be 2 (len raw) ++ raw)
     else Ok (tlv1 c_ATTR_ASPath_FLAG c_ATTR_ASPath_ID raw)
-  else PyExc.
+  | Err c e => Err c e
+  | PyExc => PyExc
+  end.
 
 Definition parse_segment (asn4 : bool) (d : bytes) : res ((N * list N) * bytes) :=
   match d with
@@ -217,10 +230,11 @@ Definition construct_extcommunity (l : list (N * list N)) : res bytes :=
   | None => PyExc
   end.
 
-(** one 8-octet community; None = the decoder raises (traffic-action: ord() of an int) *)
+(** one 8-octet community (option kept for a decoder that raises; none of the modelled ones does).
+    traffic-action: bits 6 and 7 of the last octet ("S:<b6>,T:<b7>") *)
 Definition dec_ext (t s v0 v1 v2 v3 v4 v5 : N) : option (N * list N) :=
   let code := t * 256 + s in
-  if code =? c_BGP_EXT_TRA_ACTION then None else
+  if code =? c_BGP_EXT_TRA_ACTION then Some (code, [(v5 / 2) mod 2; v5 mod 2]) else
   Some (match ext_kind code with
         | 1 => (ext_canon_code code, [unbe [v0; v1]; unbe [v2; v3; v4; v5]])
         | 2 => (ext_canon_code code, [unbe [v0; v1; v2; v3]; unbe [v4; v5]])
@@ -246,10 +260,13 @@ Definition parse_extcommunity (v : bytes) : res aval :=
   else E_UPD c_ERR_MSG_UPDATE_ATTR_LEN.
 
 (** ---- LARGE COMMUNITIES ---- *)
+(** an empty value or one that is not a multiple of 12 octets is refused (RFC 8092), before the
+    1-octet length is packed *)
 Definition construct_largecommunity (l : list (list N)) : res bytes :=
   if forallb (forallb (fun x => x <? two32)) l then
     let raw := concat (map (fun c => concat (map (be 4) c)) l) in
-    if 255 <? len raw then PyExc
+    if (len raw =? 0) || negb (len raw mod 12 =? 0) then E_UPD c_ERR_MSG_UPDATE_ATTR_LEN
+    else if 255 <? len raw then PyExc
     else Ok (tlv1 c_ATTR_LargeCommunity_FLAG c_ATTR_LargeCommunity_ID raw)
   else E_UPD c_ERR_MSG_UPDATE_ATTR_LEN.
 Fixpoint triples (l : list N) : list (list N) :=
